@@ -177,8 +177,57 @@ func CidFromAtom(a string) cid.Cid {
 	return c
 }
 
-// Cid returns an arbitrary CID (possibly cid.Undef): an opaque identity.
-func Cid(label string) cid.Cid { return CidFromAtom(String(label + ".str")) }
+// Cid returns an arbitrary CID (possibly cid.Undef): an opaque identity. When the code under test
+// looked inside the CID the counterexample also fixes its codec and multihash identity
+// (inputs <name>@codec / <name>@hash): two CIDs with the same hash identity but different codecs
+// share their multihash, as the engine's model says.
+func Cid(label string) cid.Cid {
+	mu.Lock()
+	load()
+	nm := name(label + ".str")
+	rs, okS := replay.Inputs[nm]
+	rc, okC := replay.Inputs[nm+"@codec"]
+	rh, okH := replay.Inputs[nm+"@hash"]
+	mu.Unlock()
+	if !okS {
+		return cid.Undef
+	}
+	a := atomOf(rs)
+	if !okC && !okH {
+		return CidFromAtom(a)
+	}
+	if a == "" {
+		return cid.Undef
+	}
+	codec := uint64(cid.Raw)
+	if okC {
+		_ = json.Unmarshal(rc, &codec)
+	}
+	h := a
+	if okH {
+		h = atomOf(rh)
+	}
+	c, err := cid.V1Builder{Codec: codec & 0xffff, MhType: 0x12}.Sum([]byte(h))
+	if err != nil {
+		panic(err)
+	}
+	return c
+}
+
+func atomOf(r json.RawMessage) string {
+	var a struct {
+		Str  *string `json:"str"`
+		Atom *int64  `json:"atom"`
+	}
+	_ = json.Unmarshal(r, &a)
+	if a.Str != nil {
+		return *a.Str
+	}
+	if a.Atom != nil {
+		return fmt.Sprintf("@atom%d", *a.Atom)
+	}
+	return ""
+}
 
 // Node returns an arbitrary non-null IPLD node: an opaque identity (natively a string node).
 func Node(label string) datamodel.Node { return OpaqueNode(String(label)) }
